@@ -158,6 +158,11 @@ func pipeRun(settings *pipeline.Settings, items []feedItem, firstGap time.Durati
 				res[i].at = time.Since(start)
 				off := int64(i + 1)
 				res[i].seq = r.ctl.In(pipeline.SourceID(it.src), it.name, pipeline.NewOffsets(off, nil), rec, it.isNew, it.meta)
+				// In has returned: the buffer is the caller's again (a reader refills it with the next bytes
+				// of its file or connection at once). What the event carries must not depend on it any more.
+				for k := range rec {
+					rec[k] = '#'
+				}
 				// virtual time: one tick lets every runnable goroutine finish its work
 				time.Sleep(time.Millisecond)
 				if res[i].seq != 0 {
